@@ -17,7 +17,7 @@ CLAIMED = {
     "C09": ("TLC checks C09 on a destination-call-level model (crash between any two calls) and on the API-level model DirOps for all "
             "histories; every DirOps history is replayed on the real DirSection over a recording destination (non-zero start offsets, "
             "pre-existing content) and each recorded call is validated as the corresponding DirOps action with C09 evaluated on the observed bytes.",
-            "Trusted: TLC, the recording destination and its longest-common-prefix comparator; destination = seekable byte vector (no short writes).",
+            "Trusted: TLC, the recording destination and its longest-common-prefix comparator; destination = a recording seekable byte window (short writes, a full disk and start offsets beyond 4 GiB included).",
             "TLA+ model checking (TLC) + model-generated replay + trace validation", "DESIGN.md 4/C09"),
 }
 
@@ -132,6 +132,17 @@ CLAIMED["C08"] = ("TLC checks which mappings are listed, entry-first and caller-
 
 NOT_YET = {
 }
+CROSS = {"C01", "C04", "C05", "C06", "C07", "C08", "C12", "C15", "C18", "C20"}
+EXTRA = {
+    "C03": "Also: the recorded hook sequence of every single-dump schedule is validated as a behaviour of Ptrace (Trace_PtraceSeq); targets in which every thread is dropped (all threads without a stack) and Ptrace with Sandbox = T.",
+    "C04": "Also: StatusFile (get_ppid_and_tgid transcribed) bound through substituted /proc/<pid>/status files (PPid 0 etc.); per-thread segment selectors; crash contexts whose own tid field names another thread.",
+    "C10": "Also: short writes (the destination takes part of a write, then is full or keeps accepting) in the model (DirSection.WriteTail(n), WriteAll) and on real dumps; application regions with an unreadable tail; destinations beyond 4 GiB.",
+    "C09": "Also: random histories with short writes and start offsets beyond 4 GiB / 2^40 (windowed recording destination); real dumps of a target with an empty environment and of one appended beyond 4 GiB.",
+    "C12": "Also at dump level (Trace_SanitizeDump): every word of every sanitised dumped stack against target memory and /proc/<pid>/maps, alone and under the size limit / skip rule / crash context.",
+    "C17": "Also: MemReaderHist (one reader serving a history of reads, HistoryIndependent) and per-reader read histories on all strategies; all-ones words in the readable extent.",
+    "C19": "Also: histories in which a dump fails part-way (unreadable application region, destination failure at call k) before the next one (DumpSeq.Abort), and options that must persist (caller entry address, caller mappings).",
+    "C11": "Also: every copied file (/proc/cpuinfo, /etc/*-release, cmdline, environ, auxv, limits) made unreadable for real in a private mount namespace, singly and in combinations (SoftErrors.unreadable); a link_map name that is not UTF-8.",
+}
 
 def main():
     props = [json.loads(l) for l in open(os.path.join(ROOT, "properties.jsonl"))]
@@ -140,6 +151,10 @@ def main():
         pid = p["id"]
         if pid in CLAIMED:
             text, note, tech, ref = CLAIMED[pid]
+            if pid in CROSS:
+                text += " Besides its dedicated scenarios the check runs the cross pool (every target and writer knob drawn independently; DESIGN.md section 3) through the same projection."
+            if pid in EXTRA:
+                text += " " + EXTRA[pid]
             checks.append({
                 "property_id": pid,
                 "quick_cmd": f"./check {pid} --tier quick",
